@@ -80,11 +80,14 @@ fn gen_tree_pipeline(rng: &mut Rng, allow_fragment: bool, allow_attach: bool) ->
     } else {
         None
     };
+    let with_form = context.is_some() && rng.chance(1, 3);
     Pipeline::Tree {
         context,
         ctx_scripting: rng.chance(1, 2),
         attach_ok: allow_attach && rng.chance(1, 5),
         allow_shadow: rng.chance(9, 10),
+        driver: false,
+        with_form,
     }
 }
 
@@ -139,7 +142,34 @@ fn gen_meta_input(rng: &mut Rng, thorough: bool) -> String {
             gen_html::gen_text(rng, &mut out, 2);
         }
         let tag = *rng.pick(&["meta", "meta", "meta", "meta", "META", "link", "base", "metax", "bgsound", "basefont"]);
-        gen_html::gen_start_tag(rng, tag, &mut out);
+        if rng.chance(2, 5) {
+            // a content-type declaration, attributes in random order and quoting
+            let mut content = String::new();
+            gen_html::gen_meta_content(rng, &mut content);
+            let q = *rng.pick(&['"', '\'']);
+            let content: String = content.chars().filter(|c| *c != q).collect();
+            let mut he = String::new();
+            gen_html::rand_case(rng, "content-type", &mut he);
+            if rng.chance(1, 12) {
+                he.push_str(rng.pick_str(&[" ", "x", ";"]));
+            }
+            let a1 = format!("http-equiv={q}{he}{q}");
+            let a2 = format!("content={q}{content}{q}");
+            out.push('<');
+            out.push_str(tag);
+            out.push(' ');
+            if rng.chance(1, 2) {
+                out.push_str(&format!("{a1} {a2}"));
+            } else {
+                out.push_str(&format!("{a2} {a1}"));
+            }
+            if rng.chance(1, 10) {
+                out.push_str(" charset=other");
+            }
+            out.push_str(rng.pick_str(&[">", "/>", " >"]));
+        } else {
+            gen_html::gen_start_tag(rng, tag, &mut out);
+        }
         if rng.chance(1, 3) {
             out.push_str(&gen_input(rng, false).chars().take(40).collect::<String>());
         }
@@ -243,7 +273,11 @@ impl HtmlWorld {
         let mut opts = gen_opts(rng);
         let (input, pipeline) = match self.prop {
             HProp::C03 => {
-                let input = gen_input(rng, thorough);
+                let mut input = gen_input(rng, thorough);
+                if thorough && rng.chance(1, 6) {
+                    input = input.chars().take(rng.range(2, 12)).collect();
+                    flip = Some("all_2cut".to_string());
+                }
                 let p = if rng.chance(2, 5) { gen_tok_pipeline(rng, false) } else { gen_tree_pipeline(rng, true, true) };
                 (input, p)
             },
@@ -281,10 +315,14 @@ impl HtmlWorld {
                 (input, p)
             },
         };
-        if self.prop == HProp::C08 {
-            // the flipped option starts at a random value; the check runs both values
-            let _ = &mut opts;
+        let mut pipeline = pipeline;
+        if matches!(self.prop, HProp::C03 | HProp::C04 | HProp::C05 | HProp::C06) && rng.chance(1, 8) {
+            if let Pipeline::Tree { driver, with_form, .. } = &mut pipeline {
+                *driver = true;
+                *with_form = false;
+            }
         }
+        let _ = &mut opts;
         let schedule = gen_schedule(rng, &input, self.knobs());
         (HtmlCase { input, opts, pipeline, schedule }, flip)
     }
@@ -338,6 +376,9 @@ fn add_run_stats(stats: &mut Stats, obs: &RunObs) {
     stats.add("F5_collections", s.collections);
     stats.add("F5_nodes_collected", s.collected_nodes);
     stats.add("pauses_script", s.pauses_script);
+    if obs.is_driver {
+        stats.inc("runs_through_html5ever_driver");
+    }
     stats.add("F11_script_detached_an_element", s.script_removals);
     stats.add("pauses_encoding_indicator", s.pauses_indicator);
     if let Some(sink) = &obs.sink {
@@ -448,6 +489,10 @@ pub fn boundary_contexts(input: &str, cuts: &[usize]) -> Vec<u32> {
 // ------------------------------------------------------------------ oracles
 
 fn check_c04(obs: &RunObs) -> Result<(), Violation> {
+    if obs.is_driver {
+        // the driver hides tokens and suspensions: reaching this point means process()/finish() returned
+        return Ok(());
+    }
     if obs.stats.livelock != 0 {
         return Err(Violation::new("feed-livelock", format!("feed() was resumed {} times without finishing the delivered input", obs.stats.feeds)));
     }
@@ -676,6 +721,12 @@ pub fn extract_charset_from_content(s: &str) -> Option<String> {
     }
 }
 
+thread_local! {
+    static C19_EXPECTED: std::cell::Cell<u64> = const { std::cell::Cell::new(0) };
+    static C19_FROM_CONTENT: std::cell::Cell<u64> = const { std::cell::Cell::new(0) };
+    static C19_META_NO_INDICATOR: std::cell::Cell<u64> = const { std::cell::Cell::new(0) };
+}
+
 struct ExpectedIndicator {
     tok_index: usize,
     label: String,
@@ -712,6 +763,11 @@ fn check_c19_tree(obs: &RunObs) -> Result<(), Violation> {
                         } else if get("http-equiv").map(|v| v.eq_ignore_ascii_case("content-type")).unwrap_or(false) {
                             if let Some(content) = get("content") {
                                 want = extract_charset_from_content(&content);
+                                if want.is_some() {
+                                    C19_FROM_CONTENT.with(|c| c.set(c.get() + 1));
+                                } else {
+                                    C19_META_NO_INDICATOR.with(|c| c.set(c.get() + 1));
+                                }
                             }
                         }
                     },
@@ -734,6 +790,7 @@ fn check_c19_tree(obs: &RunObs) -> Result<(), Violation> {
         }
         match (want, t.answer == ANS_INDICATOR) {
             (Some(label), true) => {
+                C19_EXPECTED.with(|c| c.set(c.get() + 1));
                 if !last_mutation_is_insert {
                     return Err(Violation::new(
                         "indicator-tree-mutated-after-insert",
@@ -821,7 +878,24 @@ impl HtmlWorld {
         match self.prop {
             HProp::C03 => {
                 let r = run_html(&reference_case(case, &obs.logical), false, false);
-                compare_runs(&r, &obs, true, true)
+                compare_runs(&r, &obs, true, true)?;
+                if flip.as_deref() == Some("all_2cut") {
+                    // thorough tier, short inputs: every partition into at most three chunks (a tiny
+                    // sub-space enumerated inside the search, not the deciding step)
+                    let n = case.input.chars().count();
+                    let mut c2 = case.clone();
+                    c2.schedule.pauses.retain(|p| p.inject.is_none());
+                    let r2 = run_html(&reference_case(&c2, &case.input), false, false);
+                    for i in 0..=n {
+                        for j in i..=n {
+                            c2.schedule.cuts = vec![i, j];
+                            let o = run_html(&c2, false, false);
+                            stats.inc("all_2cut_partitions_run");
+                            compare_runs(&r2, &o, true, true).map_err(|v| Violation::new(&v.class, format!("cuts [{i},{j}]: {}", v.detail)))?;
+                        }
+                    }
+                }
+                Ok(())
             },
             HProp::C04 => check_c04(&obs),
             HProp::C05 => check_c05(&obs),
@@ -848,7 +922,11 @@ impl HtmlWorld {
             HProp::C19 => {
                 match &case.pipeline {
                     Pipeline::Tree { .. } => {
-                        check_c19_tree(&obs)?;
+                        let r19 = check_c19_tree(&obs);
+                        stats.add("probe_indicator_expected_and_raised", C19_EXPECTED.with(|c| c.replace(0)));
+                        stats.add("probe_indicator_label_extracted_from_content", C19_FROM_CONTENT.with(|c| c.replace(0)));
+                        stats.add("probe_content_type_meta_without_extractable_charset", C19_META_NO_INDICATOR.with(|c| c.replace(0)));
+                        r19?;
                         // same indicator sequence and transparent resumption under every schedule
                         let r = run_html(&reference_case(case, &obs.logical), false, false);
                         compare_runs(&r, &obs, false, true)
@@ -1090,20 +1168,33 @@ fn case_candidates(c: &HtmlCase) -> Vec<HtmlCase> {
                 out.push(n);
             }
         },
-        Pipeline::Tree { context, ctx_scripting, attach_ok, allow_shadow } => {
+        Pipeline::Tree { context, ctx_scripting, attach_ok, allow_shadow, driver, with_form } => {
+            let mk = |context: Option<(String, String)>, attach_ok: bool, allow_shadow: bool, with_form: bool| Pipeline::Tree {
+                context,
+                ctx_scripting: *ctx_scripting,
+                attach_ok,
+                allow_shadow,
+                driver: *driver,
+                with_form,
+            };
             if context.is_some() {
                 let mut n = c.clone();
-                n.pipeline = Pipeline::Tree { context: None, ctx_scripting: *ctx_scripting, attach_ok: *attach_ok, allow_shadow: *allow_shadow };
+                n.pipeline = mk(None, *attach_ok, *allow_shadow, false);
+                out.push(n);
+            }
+            if *with_form {
+                let mut n = c.clone();
+                n.pipeline = mk(context.clone(), *attach_ok, *allow_shadow, false);
                 out.push(n);
             }
             if *attach_ok {
                 let mut n = c.clone();
-                n.pipeline = Pipeline::Tree { context: context.clone(), ctx_scripting: *ctx_scripting, attach_ok: false, allow_shadow: *allow_shadow };
+                n.pipeline = mk(context.clone(), false, *allow_shadow, *with_form);
                 out.push(n);
             }
             if !*allow_shadow {
                 let mut n = c.clone();
-                n.pipeline = Pipeline::Tree { context: context.clone(), ctx_scripting: *ctx_scripting, attach_ok: *attach_ok, allow_shadow: true };
+                n.pipeline = mk(context.clone(), *attach_ok, true, *with_form);
                 out.push(n);
             }
         },
